@@ -13,7 +13,7 @@ from ..gen import gen_seq, AA, gen_special, gen_two_digit_counts, concat_collisi
 from ..clock import SimClock
 from ..rng import RngModule, TapeRandom, UniformDriver
 from ..simfs import SimFS
-from ..oracle_fork import ForkOracle, apply_op, dec
+from ..oracle_fork import ForkOracle, apply_op, dec, scribble
 from ..minimise import list_candidates
 
 ID = "C15"
@@ -36,7 +36,7 @@ ASSUMPTIONS = ["values are deterministic functions of (sequence, mutators, argum
                "fork() yields a pristine interpreter image for the oracle; the oracle server itself never runs library code",
                "arguments are rebuilt from JSON for every call so no argument object is shared between calls (caller-owned lists are mutated by the code; sharing them would be the harness's aliasing)",
                "calls are atomic (no pre-emption inside a call)"]
-PROBES = ["object_created_mid_history", "permutant_after_value", "value_after_permutant", "kappa_family_before_dmax", "default_composition_repeated", "failing_then_succeeding",
+PROBES = ["caller_scribbles_on_returned_container", "object_created_mid_history", "permutant_after_value", "value_after_permutant", "kappa_family_before_dmax", "default_composition_repeated", "failing_then_succeeding",
           "same_op_on_A_then_B", "query_after_mutator", "file_built_object", "shuffle_child_queried", "invalid_argument_call",
           "oracle_requests", "phospho_distribution_compared", "complexity_call", "user_alphabet_call"]
 
@@ -243,6 +243,14 @@ def gen_plan(streams, tier):
             strs.append(strs[o])
         else:
             ops.append({"o": o, "q": gen_query(rnd, N, p_invalid)})
+    p_scribble = rnd.choice((0.0, 0.0, 0.15, 0.4))
+    p_post = rnd.choice((0.0, 0.3, 1.0))
+    for op in ops:
+        if "q" in op:
+            if rnd.random() < p_scribble:
+                op["scribble"] = True        # the caller edits the returned container in place
+            if rnd.random() < p_post:
+                op["post"] = True            # look at the stored sequence and site list right after this query
     return {"property": ID, "run_seed": streams.run_seed, "objects": objs, "ops": ops}
 
 
@@ -382,7 +390,10 @@ def _run(plan, ctx, oracle, seqmod, sfp, spmod, SequenceParameters, fsbox):
             continue
         reads0, ev0 = clock.reads, fs.nevents
         draws0 = ctx.counters.get("draws_move", 0)
-        got = apply_op(o, name, q[1], q[2])
+        rawbox = []
+        got = apply_op(o, name, q[1], q[2], raw=rawbox)
+        if op.get("scribble") and rawbox and scribble(rawbox[0]):
+            ctx.probe("caller_scribbles_on_returned_container")
         if clock.reads != reads0 or fs.nevents != ev0 or ctx.counters.get("draws_move", 0) != draws0:
             ctx.probe("seam_touched_by_query")
         want = oracle_value(i, q)
@@ -424,12 +435,6 @@ def _run(plan, ctx, oracle, seqmod, sfp, spmod, SequenceParameters, fsbox):
             raise Violation("history_dependent", "history_dependent:" + name + ("_perm" if perm_call else ""),
                             "object %d (%s): %s(%s) returned %s after history %s; a fresh object in a pristine interpreter returns %s" % (
                                 i, seqs[i], name, cjson([q[1], q[2]])[:120], cjson(got)[:200], hist[-8:], cjson(want)[:200]))
-        # the query must not have changed the stored sequence or the site list
-        if o.get_sequence() != seqs[i]:
-            raise Violation("query_changed_object", "query_changed_sequence:" + name, "%s changed the stored sequence of object %d" % (name, i))
-        if list(o.get_phosphosites()) != sites[i]:
-            raise Violation("query_changed_object", "query_changed_sites:" + name, "%s changed the phosphosite list of object %d: %r, model %r" % (
-                name, i, o.get_phosphosites(), sites[i]))
         # abstract state update
         if name in KAPPA_FAMILY[:1] or name == "get_deltaMax":
             st["dmax"] = True
@@ -441,6 +446,21 @@ def _run(plan, ctx, oracle, seqmod, sfp, spmod, SequenceParameters, fsbox):
         last_kind[i] = name
         last_obj[0] = i
         prev_q[0] = (i, is_exc, cjson(q))
+        if not op.get("post", True):
+            continue                     # these two look-ups are calls too: not after every query
+        # the query must not have changed the stored sequence or the site list
+        if o.get_sequence() != seqs[i]:
+            raise Violation("query_changed_object", "query_changed_sequence:" + name, "%s changed the stored sequence of object %d" % (name, i))
+        if list(o.get_phosphosites()) != sites[i]:
+            raise Violation("query_changed_object", "query_changed_sites:" + name, "%s changed the phosphosite list of object %d: %r, model %r" % (
+                name, i, o.get_phosphosites(), sites[i]))
+    # final look at every object: stored sequence and site list follow the model
+    for i, o in enumerate(objs):
+        if o.get_sequence() != seqs[i]:
+            raise Violation("query_changed_object", "query_changed_sequence:end", "the stored sequence of object %d changed during the history" % i)
+        if list(o.get_phosphosites()) != sites[i]:
+            raise Violation("query_changed_object", "query_changed_sites:end", "the phosphosite list of object %d is %r at the end of the history, model %r" % (
+                i, o.get_phosphosites(), sites[i]))
     ctx.count("ops", len(plan["ops"]))
 
 
